@@ -79,6 +79,8 @@ class Ctx:
         return counts
 
     def finish(self, explanation, assumptions=(), write=True):
+        if os.environ.get("FRG_NO_EVIDENCE"):
+            write = False
         counts = self.check_minima()
         fails = self.failing()
         known = [k for k in load_known() if k.get("property") == self.prop and k.get("status") == "open"]
